@@ -433,6 +433,21 @@ class Grounder(engines.engine.Engine, CompilerMixin):
             # substituting parameters and static fluents can turn a general numeric
             # effect into a simple one
             new_kind.set_problem_type("SIMPLE_NUMERIC_PLANNING")
+        if new_kind.has_disjunctive_conditions():
+            # a disjunctive condition (implication, equivalence) over a static
+            # fluent can simplify to a negated literal
+            new_kind.set_conditions_kind("NEGATIVE_CONDITIONS")
+        # pruning actions and simplifying away effects can make a fluent static
+        if new_kind.has_fluents_in_boolean_assignments():
+            new_kind.set_effects_kind("STATIC_FLUENTS_IN_BOOLEAN_ASSIGNMENTS")
+        if new_kind.has_fluents_in_numeric_assignments():
+            new_kind.set_effects_kind("STATIC_FLUENTS_IN_NUMERIC_ASSIGNMENTS")
+        if new_kind.has_fluents_in_object_assignments():
+            new_kind.set_effects_kind("STATIC_FLUENTS_IN_OBJECT_ASSIGNMENTS")
+        if new_kind.has_fluents_in_durations():
+            new_kind.set_expression_duration("STATIC_FLUENTS_IN_DURATIONS")
+        if new_kind.has_fluents_in_actions_cost():
+            new_kind.set_actions_cost_kind("STATIC_FLUENTS_IN_ACTIONS_COST")
         return new_kind
 
     def _compile(
